@@ -1212,6 +1212,27 @@ func auparseFamily(ctx *Ctx) error {
 		if cl := c04Monitor(c, o); cl != "" {
 			res.Violate(common.Violation{Kind: "monitor", Clause: cl, Input: c, Impl: o.Out, Case: idx})
 		}
+		if ctx.Prop == "C12" && c.Kind == "data" && c.Expect != nil && o.Err == nil && o.Panic == "" && idx%4 == 0 {
+			// the other way to make a message: the exported fields set directly (a record that reached the program
+			// by another route than a log line or a netlink buffer). Its Data() is that of the parsed message.
+			in := c.input()
+			if i := strings.Index(in, "): "); i >= 0 && strings.HasPrefix(in, "audit(") && !strings.Contains(in[:i], " ") {
+				lit := &auparse.AuditMessage{RecordType: auparse.AuditMessageType(c.Typ), RawData: in[i+3:]}
+				func() {
+					defer func() {
+						if r := recover(); r != nil {
+							res.Violate(common.Violation{Kind: "monitor", Clause: fmt.Sprintf("C12: Data() of a message made by setting RecordType and RawData panicked: %v", r), Input: c, Impl: o.Out, Case: idx})
+						}
+					}()
+					d, err := lit.Data()
+					tg, _ := lit.Tags()
+					if got := renderAData(d, tg, err); got != o.Out {
+						res.Violate(common.Violation{Kind: "monitor", Clause: "C12: a message made by setting RecordType and RawData to the record's text decodes differently from the same record parsed: " + got, Input: c, Impl: o.Out, Case: idx})
+					}
+				}()
+				res.Hist("message made from its fields")
+			}
+		}
 		if ctx.Prop == "C04" && idx%4 == 0 {
 			if cl := c04PushEntry(c); cl != "" {
 				res.Violate(common.Violation{Kind: "monitor", Clause: cl, Input: c, Impl: o.Out, Case: idx})
@@ -1336,6 +1357,18 @@ func auparseFamily(ctx *Ctx) error {
 				c := mkACase("data", 1300, fmt.Sprintf("audit(1.000:1): arch=%x syscall=%d success=yes exit=0 exe=\"/x\"", code, n))
 				c.Expect = map[string]string{"arch": an, "syscall": tbl[n], "result": "success", "exit": "0", "exe": "/x"}
 				run(c, n%7 == 0, true, "table:syscall")
+			}
+			// numbers that are a table entry with something added (the x32 bit 0x40000000, the sign bit, 2^32, an
+			// offset): they name nothing, the number is reported as it is
+			for i, n := range nums {
+				for k, d := range []int{n | 0x40000000, n | 0x80000000, n + 1<<32, n + 512, n + 1024, n + 4096, n | 0x20000000, -n - 1} {
+					if _, named := tbl[d]; named || (i+k)%3 != 0 && !ctx.Thorough() {
+						continue
+					}
+					c := mkACase("data", 1300, fmt.Sprintf("audit(1.000:1): arch=%x syscall=%d success=yes exit=0 exe=\"/x\"", code, d))
+					c.Expect = map[string]string{"arch": an, "syscall": strconv.Itoa(d), "exe": "/x"}
+					run(c, (i+k)%21 == 0, true, "table:syscall-derived")
+				}
 			}
 		}
 		for n, name := range auparse.AuditErrnoToName {
